@@ -13,7 +13,7 @@ TRUST = ("trusted: rustc nightly's MIR construction and constant evaluation at m
 
 CLAIMS = {
  "C01": ("tables / path tables / finite-domain abstract interpretation on MIR",
-         "Decides structural clauses only: encoder and decoder symbol tables agree with RFC 1951 and with each other over all 256 length indices and 32768 distances; fixed-block code lengths written by both sides agree; the dictionary mirror copy is paired with every dictionary write under the right guard; the grow-and-retry loops of the vector helpers account exactly; level clamping (levels above 10 behave as 10); every flush_block result is checked. NOT decided: that LZ parsing, Huffman construction and bit packing reproduce the input for all data (round-trip equality), absence of panics on the compression path."),
+         "Decides structural clauses only: encoder and decoder symbol tables agree with RFC 1951 and with each other over all 256 length indices and 32768 distances; fixed-block code lengths written by both sides agree; the dictionary mirror copy is paired with every dictionary write under the right guard; the grow-and-retry loops of the vector helpers account exactly; level clamping (levels above 10 behave as 10); every flush_block result is checked; the internal LZ token buffer is written and read under one convention (per token one flag shift, a match sets the top bit and writes len-3 / low / high byte of dist-1, one consume_flag per token, N slots per flag byte with the reader's sentinel = 1 << N, partial flag bytes right-aligned by the unused slots, reader cursor advances 1 / 3). NOT decided: that LZ parsing, Huffman construction and bit packing reproduce the input for all data (round-trip equality), absence of panics on the compression path."),
  "C02": ("write-back dataflow, dominance and path tables on MIR",
          "Decides: every cached state variable of the three compress routines is written back before each return and before calls that read it; flush_block is never entered with output pending (result discipline, caller set, zero result means nothing pending); the sticky-Finish / error gate and the pending-output drain of compress_inner; gating of the final block; conservation of pending output bookkeeping (copied + pending = produced); bit-buffer carry between blocks; Done only when finished and drained. NOT decided: decodability of the concatenated output, absence of panics for every schedule."),
  "C04": ("state-machine extraction, guard atoms, finite-domain evaluation of the header predicate on MIR",
